@@ -418,7 +418,7 @@ func (e *Env) eval(n ast.Expr) Value {
 			if et == nil {
 				e.fail("index of slice with unknown element type")
 			}
-			return Value{T: x.loadElem(e.st, e.heap, e.epoch, et, sArr(base.T), Add(sOff(base.T), idx.T)), Typ: et}
+			return Value{T: x.loadElem(e.st, e.heap, e.epoch, et, sArr(base.T), sIdx(sOff(base.T), idx.T)), Typ: et}
 		case strings.HasPrefix(base.T.Sort, "(Array"):
 			return Value{T: Select(base.T, idx.T)}
 		case base.T.Sort == "Ref":
